@@ -34,6 +34,8 @@ def run(model, res, tier):
     res.rule('R4', 'every reachable handler that can catch a shared XLError singleton resets its __traceback__')
     res.rule('R5', 'no unbounded or untyped memoisation on reachable functions')
     res.rule('R6', 'each parse reads its own token stream (private lexer): an evaluation nested in a callback cannot disturb the outer one (shared with C03.R1)')
+    res.rule('R7', 'per-parser state is per parser: no instance attribute starts out as an object shared between parser objects, so an evaluation '
+             'depends only on what was registered on its own parser (shared with C03.R2)')
     res.assumptions += ['A1 host callbacks are opaque (their own effects are the host\'s)',
                         'A3 ply keeps only the last parse\'s stacks (third-party retention not analysed)']
     res.trusted += ['CPython ast', 'hand-written ownership models of builtins/stdlib calls (hxsa/effects.py)',
@@ -50,6 +52,7 @@ def run(model, res, tier):
     k = purity.check_memo(res, c, 'R5', reach, 'a function used during evaluation')
     from . import c03
     c03._r1(model, res, c, 'R6')
+    c03.instance_state(model, res, c, 'R7')
     res.ob('R5', 'package', 'memo decorators on %d reachable functions examined' % len(reach), True, '%d found' % k)
 
 
